@@ -7,6 +7,7 @@ terms / loop-emission summaries.  Decides formula shape, not the solution of the
 from .. import mir, terms, loops, tables
 from ..terms import V, match, fmt
 from . import c15
+from .. import inline
 
 REF_SRC = mir.VERIF + "/fixtures/rfcref"
 P = lambda i: ("param", i)
@@ -48,10 +49,13 @@ def run_rand(rep, crate, cfg):
         name = "V%d" % k
         ix = seen.get(name)
         sh = y if k == 0 else ("op", "Shr", y, ("const", 8 * k))
-        want = terms.normalise(("op", "Rem", ("op", "Add", sh, i), ("const", 256)))
-        alt = terms.normalise(("op", "Rem", ("call", "std::num::<impl u32>::wrapping_add", (sh, i)), ("const", 256)))
-        alt2 = terms.normalise(("op", "BitAnd", ("op", "Add", sh, i), ("const", 255)))
-        ok = ix is not None and ix in (want, alt, alt2)
+        sums = [("op", "Add", sh, i), ("call", "std::num::<impl u32>::wrapping_add", (sh, i)),
+                ("call", "std::num::<impl u32>::wrapping_add", (i, sh))]
+        alts = []
+        for sm in sums:       # (y>>8k) + i, checked or wrapping; reduced mod 256 by % or by & 0xFF (same value for unsigned)
+            alts.append(terms.normalise(("op", "Rem", sm, ("const", 256))))
+            alts.append(terms.normalise(("op", "BitAnd", sm, ("const", 255))))
+        ok = ix is not None and ix in alts
         rep.check(ok, R, fn.key, "index-" + name, fn.loc(),
                   "%s is indexed by ((y >> %d) + i) mod 256" % (name, 8 * k), {"found": fmt(ix)[:160] if ix else None}, cfg)
 
@@ -139,8 +143,13 @@ def run_enc(rep, crate, cfg):
     f2 = crate.fns.get("encoder::enc_into")
     rep.floor(R, (f1 is not None) + (f2 is not None), 2, "Enc siblings (enc_indices, enc_into)", cfg)
     if f1 is not None:
-        sig1 = loops.signature(loops.LoopSummary(f1, closure_sink), roles, unwrap_closure_arg)
-        d = loops.diff_signatures(sig_ref, sig1)
+        for fv in inline.variants(crate, f1):       # retry with extracted helpers spliced back in
+            sig1 = loops.signature(loops.LoopSummary(fv, closure_sink), roles, unwrap_closure_arg)
+            d = loops.diff_signatures(sig_ref, sig1)
+            if d and getattr(fv, "inlined", False):
+                d = loops.diff_anonymised(sig_ref, sig1)     # inlining duplicates loop variables: compare the formulas
+            if not d:
+                break
         rep.check(not d, R, f1.key, "enc-index-sequence", f1.loc(),
                   "enc_indices emits b, then d-1 times b=(b+a)%W, then W+b1 after the b1>=P skip loop, then d1-1 more (RFC 5.3.5.3)",
                   {"differences": d[:4]}, cfg)
@@ -166,8 +175,14 @@ def run_enc(rep, crate, cfg):
                 return ("emit", (("bad-operand", args),))
             kinds.append(s)
             return ("emit", (m["ix"],))
-        sig2 = loops.signature(loops.LoopSummary(f2, sink2), roles2, norm2)
-        d = loops.diff_signatures(sig_ref, sig2)
+        for fv in inline.variants(crate, f2):
+            del kinds[:]
+            sig2 = loops.signature(loops.LoopSummary(fv, sink2), roles2, norm2)
+            d = loops.diff_signatures(sig_ref, sig2)
+            if d and getattr(fv, "inlined", False):
+                d = loops.diff_anonymised(sig_ref, sig2)
+            if not d:
+                break
         rep.check(not d, R, f2.key, "enc-index-sequence", f2.loc(),
                   "enc_into combines intermediate symbols at the RFC's index sequence (same as enc_indices)",
                   {"differences": d[:4]}, cfg)
@@ -217,11 +232,15 @@ def run_ldpc_hdpc(rep, crate, cfg):
             # set(&mut matrix, row, col, Octet::one())
             one_ok.append(len(args) == 4 and args[3] == ("call", "octet::Octet::one", ()))
             return ("set", (args[1], args[2]))
-        ls = loops.LoopSummary(f, sink)
-        sig = loops.rewrite_signature(loops.signature(ls, roles, norm), b_rule)
-        # the LDPC part = the first three loops and their events; the G_ENC loop follows
-        part = {"loops": sig["loops"][:n_ldpc_loops], "events": tuple(e for e in sig["events"] if e[0] is not None and e[0] < n_ldpc_loops)}
-        d = loops.diff_signatures(sig_ref, part)
+        for fv in inline.variants(crate, f):
+            del one_ok[:]
+            ls = loops.LoopSummary(fv, sink)
+            sig = loops.rewrite_signature(loops.signature(ls, roles, norm), b_rule)
+            # the LDPC part = the first three loops and their events; the G_ENC loop follows
+            part = {"loops": sig["loops"][:n_ldpc_loops], "events": tuple(e for e in sig["events"] if e[0] is not None and e[0] < n_ldpc_loops)}
+            d = loops.diff_signatures(sig_ref, part)
+            if not d:
+                break
         rep.check(not d, R, k, "ldpc-rows", f.loc(),
                   "G_LDPC,1 (a=1+i/S, b=i%S, three sets with b=(b+a)%S), I_S at column B+i, G_LDPC,2 at W+i%P and W+(i+1)%P",
                   {"differences": d[:4]}, cfg)
